@@ -464,6 +464,20 @@ func connStateGuarded(c *Ctx, g groot) (bool, string) {
 	for _, a := range stores {
 		st := a.Instr.(*ssa.Store)
 		F := closureTarget(st.Val)
+		// a method value (`p.call` of a small struct holding the hook): the wrapper go/ssa makes for it only forwards
+		if F != nil && F.Synthetic != "" && strings.Contains(F.Synthetic, "bound method") {
+			var inner *ssa.Function
+			n := 0
+			eachInstr(F, func(i ssa.Instruction) {
+				if cc, ok := i.(*ssa.Call); ok {
+					n++
+					inner = staticCallee(&cc.Call)
+				}
+			})
+			if n == 1 && inner != nil {
+				F = inner
+			}
+		}
 		if F == nil || F.Blocks == nil {
 			return false, "http.Server.ConnState is assigned a value that is not a function literal at " + c.Pos(instrPos(st))
 		}
